@@ -48,7 +48,9 @@ Merged(doc, n) ==
   LET parts == Bases(doc, n) \o Exts(doc, n)      \* base first, then extensions in their relative order
       first == parts[1]
   IN [name |-> n, kind |-> first.kind,
-      builtin |-> \E j \in 1..Len(parts) : parts[j].builtin,
+      \* a type is built-in when its DEFINITION stands in a built-in source: an extension neither makes a user's
+      \* type built-in nor a built-in type the user's (a type that exists through extensions only is nobody's)
+      builtin |-> Bases(doc, n) # <<>> /\ Bases(doc, n)[1].builtin,
       ifaces  |-> Flatten([j \in 1..Len(parts) |-> parts[j].ifaces]),
       fields  |-> Flatten([j \in 1..Len(parts) |-> parts[j].fields]),
       members |-> Flatten([j \in 1..Len(parts) |-> parts[j].members]),
@@ -101,10 +103,13 @@ Covariant(doc, required, actual) ==
 
 UniqueTypes(doc) == \A n \in Names(doc) : Len(Bases(doc, n)) <= 1
 ExtensionKinds(doc) == \A n \in Names(doc) : Cardinality(Types(doc)[n].kinds) = 1
+\* Only the directives the specification itself defines may be declared again (section 3.13 lets a
+\* type system spell them out); the built-in FLAG of a source gives no such licence.
+SpecifiedDirectives == {"include", "skip", "deprecated", "specifiedBy", "defer", "oneOf"}
 UniqueDirectives(doc) ==
   \A n \in DirNames(doc) :
     LET ds == SelectSeq(doc.dirdefs, LAMBDA d : d.name = n)
-    IN Len(ds) <= 1 \/ (\E j \in 1..Len(ds) : ds[j].builtin)
+    IN Len(ds) <= 1 \/ n \in SpecifiedDirectives
 UniqueFields(doc) == \A n \in Names(doc) :
   LET fs == Types(doc)[n].fields IN \A a, b \in 1..Len(fs) : a # b => fs[a].name # fs[b].name
 
